@@ -21,11 +21,18 @@
 #     to the first PGN 0 (the interface is a zero terminated array).  Stray bytes behind the last complete PGN: nothing required.
 #   * list-updated: between two dumps that differ in what is reported for non-zero NAMEs at least one message must have raised the flag
 #     (the random walks dump after every message, so this is checked per message there).
+#   * known finding 'parked-device' (not repaired): see PENDING_DESCR; the oracle reports a product information failure under this key exactly
+#     when the device had been displaced by a takeover and its next claim named the slot the list kept it in (as seen in the last dump; if
+#     there was no dump since, any slot).
 #   * NAME 0 is nobody's NAME: entries with NAME 0 (placeholders for sources that have not claimed yet) carry no obligations.
 import random, struct, re
 import vlib
 
-PENDING_KNOWN = []      # keys of findings that are to be listed in known_findings.json by the lead (none at the moment)
+# findings that are not repaired (no small and safe patch) and are to be listed in known_findings.json by the lead; until then the
+# check treats exactly these oracle keys as known
+PENDING_KNOWN = ['parked-device']
+PENDING_DESCR = {'parked-device': 'a device displaced from its address is parked in a free slot of Sources[] as if it had that address; when it then claims exactly that '
+                 'address the claim is taken for a repetition, product information is not asked again and the first product information after the claim is ignored'}
 ALL1 = (1 << 64) - 1
 T0S = [0, 1, 999, 1000, 5000, 123456, (1 << 31) - 70000, (1 << 31) - 1500, (1 << 31) - 1, 1 << 31, (1 << 31) + 1000, 0x80010000,
        0xFFFF0000, 0xFFFFF000, (1 << 32) - 1001, (1 << 32) - 1]
@@ -360,6 +367,8 @@ def oracle(case, res):
     mirror = {}      # NAME -> address (undisplaced)
     holder = {}      # address -> NAME
     info = {}        # address -> expectations for its holder
+    displaced = {}   # non-zero NAME displaced by a takeover and not seen claiming since -> slot the list was last seen keeping it in (None = unknown)
+    fresh = True     # no claim since the last dump (the slots seen there are still the slots)
     prev_view = None
     flags_since = []
     for k, (op, out) in enumerate(zip(ops, outs)):
@@ -375,10 +384,16 @@ def oracle(case, res):
                     continue
                 if src in holder:
                     old = holder.pop(src); mirror.pop(old, None); info.pop(src, None)
+                    if old != 0:
+                        displaced[old] = None
                 if n in mirror:
                     a = mirror.pop(n); holder.pop(a, None); info.pop(a, None)
                 mirror[n] = src; holder[src] = n
-                info[src] = {'pi': None, 'ci': None, 'tx': None, 'rx': None}
+                info[src] = {'pi': None, 'ci': None, 'tx': None, 'rx': None, 'returned': False}
+                if n in displaced:
+                    at = displaced.pop(n)
+                    info[src]['returned'] = at == src or at is None or not fresh
+                fresh = False
             elif src in holder:
                 e = info[src]
                 if pgn == 126996:
@@ -416,6 +431,8 @@ def oracle(case, res):
             if e['pi'] is not None:
                 w, g = e['pi'], en['pi']
                 bad = [i for i in range(8) if w[i] != g[i] and not ((i == 0 and w[0] == 0xffff) or (i in (6, 7) and w[i] == 0xff))]
+                if bad and e['returned']:
+                    return 'parked-device:device %x was displaced, kept by the list in slot %d, and then claimed address %d: first product information after that claim was %s, reported %s (operation %d)' % (n, a, a, w, g, k)
                 if bad:
                     return 'prodinfo:device %x at %d: first product information after its claim was %s, reported %s (operation %d)' % (n, a, w, g, k)
             if e['ci'] is not None and e['ci'] != ANY:
@@ -425,6 +442,10 @@ def oracle(case, res):
             for f in ('tx', 'rx'):
                 if e[f] is not None and e[f] != ANY and e[f] != (en[f] or []):
                     return 'pgnlist:device %x at %d: latest %s PGN list was %s, reported %s (operation %d)' % (n, a, f, e[f][:8], (en[f] or [])[:8], k)
+        for n in displaced:
+            at = [s for s, en in ents.items() if en['name'] == n]
+            displaced[n] = at[0] if at else -1
+        fresh = True
         view = sorted((s, en['name'], en['pi'], tuple(x or b'' for x in en['ci']), tuple(en['tx'] or []), tuple(en['rx'] or [])) for s, en in ents.items() if en['name'] != 0)
         if prev_view is not None and view != prev_view and not any(flags_since):
             return 'updated-flag:what the list reports changed between two dumps (before operation %d) and no message in between raised the list-updated indication' % k
@@ -439,7 +460,12 @@ def nontrivial(case, mres):
 
 def known(case, what):
     key = what.split(':')[0]
-    return key if key in PENDING_KNOWN else None
+    for k in vlib.known_findings('C18'):
+        if key == k['key']:
+            return k['line']
+    if key in PENDING_KNOWN:
+        return '%s (pending entry of known_findings.json)' % PENDING_DESCR.get(key, key)
+    return None
 
 
 def check(run, replay=None):
